@@ -30,11 +30,12 @@ def rcase(c):
             return f"RSys {zl(c['ws'])} {n(c['N'])} {z(c['a'])} {z(c['b'])} []"
         return f"RSys {zl(c['ws'])} {n(c['N'])} {z(c['a'])} {z(c['b'])} {nl(c['idx'])}"
     if "err" in c:
-        return "RRes [] [] false (0#1)%Q (0#1)%Q false"
+        return "RRes [] [] false (0#1)%Q (0#1)%Q false [] None"
     fi = "[" + "; ".join(zl(f) for f in c["fin"]) + "]"
     fo = "[" + "; ".join(zl(f) for f in c["fout"]) + "]"
     b = lambda x: "true" if x else "false"  # noqa: E731
-    return f"RRes {fi} {fo} {b(c['wz'])} {q(c['lml0'])} {q(c['lml1'])} {b(c['diag_ok'])}"
+    sysv = f"(Some ({z(c['a'])}, {z(c['b'])}))" if "a" in c else "None"
+    return f"RRes {fi} {fo} {b(c['wz'])} {q(c['lml0'])} {q(c['lml1'])} {b(c['diag_ok'])} {zl(c['ws'])} {sysv}"
 
 
 def run(ctx):
